@@ -78,6 +78,10 @@ pub enum Op {
     Stat,
     /// dump_data().iter() over everything
     DumpIter,
+    /// take dump_data() now and keep it
+    Snapshot,
+    /// iterate the snapshot taken earlier: it must still yield what was live when it was taken
+    SnapshotIter,
     /// RefDump::write_to_string()
     Dump,
     /// flush+ack, drop, quiesce old worker, open with a new config
@@ -126,6 +130,8 @@ impl Op {
             Op::Read(a, b) => format!("read({a},{b})"),
             Op::Stat => "stat".into(),
             Op::DumpIter => "dump_iter".into(),
+            Op::Snapshot => "snapshot".into(),
+            Op::SnapshotIter => "snapshot_iter".into(),
             Op::Dump => "dump".into(),
             Op::Restart(c) => format!("restart(rec={:?},size={:?},rb={:?},ci={:?},cc={:?})", c.chunk_max_records, c.chunk_max_size, c.read_buffer_size, c.log_cache_max_items, c.log_cache_capacity),
             Op::RaceRestart(_) => "race_restart".into(),
@@ -165,6 +171,6 @@ pub struct Spec {
 impl Spec {
     /// Faults other than the transparent kinds (short transfers, EINTR), i.e. real errors.
     pub fn has_real_faults(&self) -> bool {
-        self.faults.iter().any(|f| !matches!(f.effect, crate::core::Effect::Short | crate::core::Effect::Errno(libc::EINTR)))
+        self.faults.iter().any(|f| !matches!(f.effect, crate::core::Effect::Short | crate::core::Effect::Errno(libc::EINTR) | crate::core::Effect::Delay(_)))
     }
 }
